@@ -111,6 +111,9 @@ class Interp:
                 return None
             if dk in ('staticlocal', 'global', 'staticmember'):
                 return self.static_value(fn, n)
+            if dk == 'function' and n.get('mn') and self.db.by_mn.get(n['mn']) is not None and self.db.by_mn[n['mn']].body >= 0:
+                t_ = self.db.by_mn[n['mn']]
+                return ('pyfn', lambda *a_, t_=t_: self.call(t_, list(a_), None))      # a repository function used as a value (a predicate passed to an algorithm)
             raise OutOfFragment('unbound variable %s at %s' % (n.get('name'), fn.loc(n)))
         if k == 'CXXThisExpr':
             if 'this' in env:
@@ -434,6 +437,15 @@ class Interp:
         S = fn.stmts
         k = n['k']
         last = cs.split('::')[-1]
+        if k == 'CXXMemberCallExpr' and 'obj' in n and cs.startswith('<dependent>::') and not n.get('_typed'):
+            # a member call on a value of deduced type (generic lambda, template): the container model is chosen by the value itself
+            o_ = self.eval(fn, S[n['obj']], env)
+            while isinstance(o_, tuple) and len(o_) == 2 and o_[0] == 'ptr':
+                o_ = o_[1]
+            pref = ('std::unordered_set::' if isinstance(o_, (set, frozenset)) else 'std::vector::' if isinstance(o_, list) else
+                    'std::unordered_map::' if isinstance(o_, dict) and not isinstance(o_, Obj) else 'std::basic_string::' if isinstance(o_, (bytes, bytearray)) else None)
+            if pref is not None:
+                return self.std_model(fn, dict(n, cs=pref + last, callee=pref + last, _typed=True), env)
         if k == 'CXXMemberCallExpr' and 'obj' in n and cs.startswith(('std::vector::', 'std::__shared_ptr::', 'std::shared_ptr::', 'std::unique_ptr::', 'std::basic_string::', 'std::__cxx11::basic_string::', 'std::basic_string_view::')):
             if cs.startswith(('std::__shared_ptr::', 'std::shared_ptr::', 'std::unique_ptr::')):
                 o = self.eval(fn, S[n['obj']], env)
@@ -453,6 +465,9 @@ class Interp:
                     return len(o) == 0
                 if last.startswith('operator basic_string_view'):
                     return o                      # a view of the string: the same bytes
+                if last == 'clear' and isinstance(o, bytearray) and not args:
+                    del o[:]
+                    return None
                 if last in ('at', 'operator[]') and len(args) == 1:
                     i = self.eval(fn, S[args[0]], env)
                     if isinstance(i, int) and 0 <= i < len(o):
@@ -503,6 +518,12 @@ class Interp:
             if not isinstance(o, list):
                 return NOT_HANDLED
             args = n.get('args', [])
+            if last == 'emplace_back' and len(args) == 2 and 'std::pair<' in (n.get('callee') or '').split('::emplace_back')[0]:
+                import copy as _copy
+                a_, b_ = (self.eval(fn, S[x], env) for x in args)       # pair(first, second) constructed in place: both are copies
+                e_ = Obj(first=_copy.deepcopy(a_), second=_copy.deepcopy(b_))
+                o.append(e_)
+                return e_
             if last == 'emplace_back' and len(args) == 2 and 'basic_string_view' in (n.get('callee') or ''):
                 p_, ln = (self.eval(fn, S[x], env) for x in args)       # string_view(pointer, length) constructed in place
                 if isinstance(p_, tuple) and p_[0] == 'sptr' and isinstance(ln, int):
@@ -808,6 +829,9 @@ class Interp:
             o = self.eval(fn, S[n['obj']], env)
             if isinstance(o, set):
                 args = [self.eval(fn, S[a], env) for a in n.get('args', [])]
+                if last == 'insert' and len(args) == 2 and all(isinstance(a_, tuple) and len(a_) == 3 and a_[0] == 'it' for a_ in args) and args[0][1] is args[1][1]:
+                    o.update(args[0][1][args[0][2]:args[1][2]])          # insert(first, last)
+                    return None
                 if last in ('insert', 'emplace') and len(args) == 1:
                     x = tuple(args[0]) if isinstance(args[0], list) else args[0]
                     isnew = x not in o
@@ -904,6 +928,12 @@ class Interp:
         if k == 'CXXOperatorCallExpr' and n.get('op') == '=' and cs.startswith(('std::__detail::_Node_iterator', 'std::_Rb_tree_iterator', 'std::_Rb_tree_const_iterator', '__gnu_cxx::__normal_iterator', 'std::_List_iterator')) and len(n.get('args', [])) == 2:
             v = self.eval(fn, S[n['args'][1]], env)       # an iterator variable is reassigned
             if isinstance(v, tuple):
+                self.assign(fn, S[n['args'][0]], v, env)
+                return v
+        if k == 'CXXOperatorCallExpr' and n.get('op') == '=' and cs.startswith(('std::unordered_set::', 'std::set::')) and len(n.get('args', [])) == 2:
+            v = self.eval(fn, S[n['args'][1]], env)
+            if isinstance(v, (set, frozenset)):
+                v = set(v)
                 self.assign(fn, S[n['args'][0]], v, env)
                 return v
         if k == 'CXXOperatorCallExpr' and n.get('op') == '=' and cs.startswith(('std::optional::', 'std::variant::')) and len(n.get('args', [])) == 2:
